@@ -1,79 +1,75 @@
 (* C15 - configuration text is parsed robustly and line-independently.
-   Statements only; proofs are in Config/*_proofs.v, witnesses in Config/Witness.v. *)
-From CAres.Config Require Import Spec Vif Lines_proofs Total_proofs Ranges_proofs Chan_ranges Witness.
+   Statements only; proofs are in Config/*_proofs.v, concrete instances in Config/Witness.v.
+   The model is of the code with fixes/C15-*.patch applied (each defect was first exhibited as a
+   refuted statement and replayed on the real library, see docs/C15.md). *)
+From CAres.Config Require Import Spec Vif HostsSpec Lines_proofs Total_proofs Ranges_proofs Chan_ranges Hosts_proofs Witness.
 From CAres.Gen Require Import Consts.
 From Coq Require Import String.
 Local Open Scope string_scope.
 
-(* C15_total.  Full statement: on every byte string every handler returns Ok or Err, never UB.
-   Proved: the only undefined behaviour reachable is the signed overflow of atoi() (everything
-   ares_init_by_sysconfig reads: resolv.conf, nsswitch.conf, netsvc.conf, svc.conf, LOCALDOMAIN,
-   RES_OPTIONS; for every address parser and interface table).  Missing for the full statement:
-   atoi() on a digit string that does not fit an int is undefined in ISO C (sortlist mask,
-   tcpport=, %<ifindex>), see C15_total_refuted. *)
-Theorem C15_total_partial : forall nf ifs e k, read_sysconfig nf ifs e = UB k -> k = SignedOverflow.
+(* C15_total: on every byte string, for every address parser and interface table, everything
+   ares_init_by_sysconfig reads (resolv.conf, nsswitch.conf, netsvc.conf, svc.conf, LOCALDOMAIN,
+   RES_OPTIONS) is handled without C undefined behaviour: the result is Ok or Err. *)
+Theorem C15_total : forall nf ifs e k, read_sysconfig nf ifs e <> UB k.
 Proof. exact ub_read_sysconfig. Qed.
-Print Assumptions C15_total_partial.
+Print Assumptions C15_total.
 
-Theorem C15_total_line_partial : forall nf ifs cfg l k, parse_resolv_line nf ifs cfg l = UB k -> k = SignedOverflow.
+Theorem C15_total_line : forall nf ifs cfg l k, parse_resolv_line nf ifs cfg l <> UB k.
 Proof. intros nf ifs cfg l. exact (ub_parse_resolv_line nf sortlist_fixed ifs cfg l). Qed.
-Print Assumptions C15_total_line_partial.
+Print Assumptions C15_total_line.
 
-Theorem C15_total_refuted :
-  parse_sortlist inet_fns (B "1.2.3.4/99999999999") = UB SignedOverflow /\
-  sconfig_append_fromstr inet_fns None None (B "dns://1.2.3.4:53?tcpport=99999999999") true = UB SignedOverflow /\
-  sconfig_append_fromstr inet_fns (Some vif) None (B "fe80::1%999999999999999") true = UB SignedOverflow.
-Proof. exact witness_atoi_overflow. Qed.
-Print Assumptions C15_total_refuted.
+(* the other text entry points: sortlist strings, server lists, option strings *)
+Theorem C15_total_strings : forall nf ifs l s ign cfg k,
+  parse_sortlist nf s <> UB k /\ sconfig_append_fromstr nf ifs l s ign <> UB k /\ set_options cfg s <> UB k.
+Proof. intros nf ifs l s ign cfg k. exact (conj (ub_parse_sortlist nf s k) (conj (ub_sconfig_append_fromstr nf ifs l s ign k) (ub_set_options cfg s k))). Qed.
+Print Assumptions C15_total_strings.
 
 (* C15_all_or_nothing: a resolv.conf line either has no effect or changes exactly the field group
-   of its keyword (domains / lookups / appended servers / sortlist / numeric options); a line
-   that fails (ARES_ENOMEM) aborts the file and nothing at all is applied to the channel. *)
+   of its keyword (domains / lookups / appended servers / sortlist / numeric options). *)
 Theorem C15_all_or_nothing : forall nf ifs cfg l cfg',
   parse_resolv_line nf ifs cfg l = Ok cfg' -> line_effect cfg cfg'.
 Proof. intros nf ifs cfg l cfg'. exact (resolv_line_frame nf sortlist_fixed ifs cfg l cfg'). Qed.
 Print Assumptions C15_all_or_nothing.
 
-(* C15_junk_independent.  Full statement: for every line j that the grammar of Spec.v calls junk,
-   parsing l1 ++ j :: l2 equals parsing l1 ++ l2.  Proved for the junk classes comment,
-   unknown keyword, missing argument, bytes outside printable ASCII, over-long value,
-   nameserver / sortlist arguments that cannot start a value, options with unknown plain names,
-   lookup without a known word (with fixes/C15-sortlist-keep.patch for the sortlist class).
-   Missing: classes JOptionsNumeric and JSearchEmpty, refuted below. *)
-Theorem C15_junk_independent_partial : forall nf ifs cfg l1 j l2 cls,
-  junk_class_resolv j = Some cls -> proved_class cls = true ->
+(* C15_junk_independent: for every line j that the grammar of Spec.v calls junk (all eleven
+   classes), parsing l1 ++ j :: l2 equals parsing l1 ++ l2 ... *)
+Theorem C15_junk_independent : forall nf ifs cfg l1 j l2 cls,
+  junk_class_resolv j = Some cls ->
   process_lines (parse_resolv_line nf ifs) cfg (l1 ++ j :: l2) = process_lines (parse_resolv_line nf ifs) cfg (l1 ++ l2).
 Proof. exact junk_lines_independent. Qed.
-Print Assumptions C15_junk_independent_partial.
+Print Assumptions C15_junk_independent.
 
-Theorem C15_junk_independent_refuted_search :
-  junk_class_resolv (B "search ,") = Some JSearchEmpty /\
-  parse_resolv_line nf None cfg_with_server (B "search ,") = Err ARES_ENOMEM /\
-  process_lines (parse_resolv_line nf None) sys_init [B "nameserver 1.2.3.4"; B "search ,"] = Err ARES_ENOMEM /\
-  process_lines (parse_resolv_line nf None) sys_init [B "nameserver 1.2.3.4"] = Ok cfg_with_server.
-Proof. exact witness_search_empty. Qed.
-Print Assumptions C15_junk_independent_refuted_search.
+(* ... also on the file text (what the metamorphic oracle compares): inserting a raw junk line,
+   blank or junk after trimming, anywhere in a resolv.conf ... *)
+Theorem C15_junk_independent_file : forall nf ifs cfg rs1 j rs2 cls,
+  Forall no_nl rs1 -> no_nl j -> Forall no_nl rs2 ->
+  junk_class_raw j = Some cls ->
+  process_buf (parse_resolv_line nf ifs) cfg (unlines (rs1 ++ j :: rs2)) =
+  process_buf (parse_resolv_line nf ifs) cfg (unlines (rs1 ++ rs2)).
+Proof. exact junk_file_independent. Qed.
+Print Assumptions C15_junk_independent_file.
 
-Theorem C15_junk_independent_refuted_env :
-  junk_localdomain [] = true /\ junk_res_options [] = true /\
-  init_by_environment cfg_with_server (Some []) None = Err ARES_ENOMEM /\
-  init_by_environment cfg_with_server None (Some []) = Err ARES_ENOMEM /\
-  init_by_environment cfg_with_server None None = Ok cfg_with_server.
-Proof. exact witness_env_empty. Qed.
-Print Assumptions C15_junk_independent_refuted_env.
+(* ... and LOCALDOMAIN / RES_OPTIONS holding junk behave as if unset *)
+Theorem C15_junk_independent_env : forall cfg l r,
+  (forall v, l = Some v -> junk_localdomain v = true) -> (forall v, r = Some v -> junk_res_options v = true) ->
+  init_by_environment cfg l r = init_by_environment cfg None None.
+Proof. exact junk_env_is_identity. Qed.
+Print Assumptions C15_junk_independent_env.
 
-Theorem C15_junk_independent_refuted_numeric :
-  junk_class_resolv (B "options ndots:abc") = Some JOptionsNumeric /\
-  option_map s_ndots (match parse_resolv_line nf None sys_init (B "options ndots:abc") with Ok c => Some c | _ => None end) = Some 0%Z /\
-  s_ndots sys_init = 1%Z /\
-  junk_class_resolv (B "options timeout:5x") = Some JOptionsNumeric /\
-  option_map s_timeout_ms (match parse_resolv_line nf None sys_init (B "options timeout:5x") with Ok c => Some c | _ => None end) = Some 5000%Z /\
-  option_map s_ndots (match parse_resolv_line nf None sys_init (B "options ndots:-1") with Ok c => Some c | _ => None end) = Some 4294967295%Z.
-Proof. exact witness_options_numeric. Qed.
-Print Assumptions C15_junk_independent_refuted_numeric.
+(* instances that the code as pinned got wrong (now consequences of the theorems above) *)
+Theorem C15_fixed_instances :
+  (parse_resolv_line nf None cfg_with_server (B "search ,") = Ok cfg_with_server) /\
+  (init_by_environment cfg_with_server (Some []) (Some []) = Ok cfg_with_server) /\
+  (parse_resolv_line nf None sys_init (B "options ndots:abc timeout:5x ndots:-1 ndots attempts:") = Ok sys_init) /\
+  (parse_sortlist nf (B "1.2.3.4/99999999999") = Err ARES_EBADSTR).
+Proof.
+  exact (conj (proj1 (proj2 fixed_search_empty)) (conj (proj2 (proj2 fixed_env_empty))
+        (conj (proj1 (proj2 fixed_options_numeric)) (proj1 fixed_atoi_overflow)))).
+Qed.
+Print Assumptions C15_fixed_instances.
 
-(* the code as pinned (without fixes/C15-sortlist-keep.patch): a junk sortlist line drops an
-   earlier sortlist; with the patch it is the identity *)
+(* the sortlist handler as pinned (before fixes/C15-sortlist-keep.patch) dropped an earlier
+   sortlist on a junk line; the fixed handler is the identity *)
 Theorem C15_sortlist_pinned_refuted :
   junk_class_resolv (B "sortlist junk") = Some JSortlistToken /\
   List.length (s_sortlist cfg_with_sortlist) = 1%nat /\
@@ -82,48 +78,45 @@ Theorem C15_sortlist_pinned_refuted :
 Proof. exact witness_sortlist_pinned. Qed.
 Print Assumptions C15_sortlist_pinned_refuted.
 
-(* C15_ranges: whatever the files and the environment contain, the numeric fields gathered from
-   them are 32-bit values.  The documented range of ndots (0..15) is NOT enforced. *)
+(* C15_ranges: whatever the files and the environment contain, ndots lies in the documented
+   0..15, tries is a 9-digit number and the timeout at most 4294967 s *)
 Theorem C15_ranges : forall nf ifs e s, read_sysconfig nf ifs e = Ok s -> sys_in_range s.
 Proof. exact read_sysconfig_range. Qed.
 Print Assumptions C15_ranges.
 
-Theorem C15_ranges_ndots_refuted :
-  option_map s_ndots (match parse_resolv_line nf None sys_init (B "options ndots:16") with Ok c => Some c | _ => None end) = Some 16%Z /\
-  (16 > ndots_documented_max)%Z.
-Proof. exact witness_ndots_range. Qed.
-Print Assumptions C15_ranges_ndots_refuted.
-
-(* a reinit with a resolv.conf whose only name server is unusable leaves the channel without any
-   server (ARES_CONFIG_CHECK fails from then on) *)
-Theorem C15_ranges_reinit_servers_refuted :
-  List.length (c_servers chan_a) = 1%nat /\
-  option_map (fun c => List.length (c_servers c))
-    (match reinit nf (env_of_resolv "nameserver fe80::1%nope") chan_a with Ok c => Some c | _ => None end) = Some 0%nat /\
-  option_map (fun c => List.length (c_servers c))
-    (match reinit nf (env_of_resolv "# nothing") chan_a with Ok c => Some c | _ => None end) = Some 1%nat.
-Proof. exact witness_reinit_no_servers. Qed.
-Print Assumptions C15_ranges_reinit_servers_refuted.
-
-(* C15_ranges, channel level: for all options, files and environment, a channel returned by
-   ares_init_options has a positive timeout and try count, at least one server and a lookup
-   order (ARES_CONFIG_CHECK); what the application did not set is a 32-bit value. *)
+(* ... and a channel returned by ares_init_options has a positive timeout and try count, at
+   least one server and a lookup order (ARES_CONFIG_CHECK); ndots not set by the application is
+   within 0..15, timeout and tries not set by it are 32-bit values *)
 Theorem C15_ranges_channel : forall nf e o m c,
   init_options nf e o m = Ok c ->
   (0 < c_timeout c)%Z /\ (0 < c_tries c)%Z /\ c_servers c <> [] /\ c_lookups c <> None /\
-  (has (c_optmask c) B_NDOTS = false -> (0 <= c_ndots c < 2 ^ 32)%Z) /\
+  (has (c_optmask c) B_NDOTS = false -> (0 <= c_ndots c <= 15)%Z) /\
   (has (c_optmask c) B_TIMEOUTMS = false -> (c_timeout c < 2 ^ 32)%Z) /\
   (has (c_optmask c) B_TRIES = false -> (c_tries c < 2 ^ 32)%Z).
 Proof. exact Chan_ranges.init_options_ranges. Qed.
 Print Assumptions C15_ranges_channel.
 
-(* the same at the level of the file text (what the metamorphic oracle compares): inserting a raw
-   junk line - blank, or junk after trimming - anywhere in a resolv.conf does not change the
-   system configuration read from it (same classes as C15_junk_independent_partial) *)
-Theorem C15_junk_independent_file_partial : forall nf ifs cfg rs1 j rs2 cls,
-  Forall no_nl rs1 -> no_nl j -> Forall no_nl rs2 ->
-  junk_class_raw j = Some cls -> proved_class cls = true ->
-  process_buf (parse_resolv_line nf ifs) cfg (unlines (rs1 ++ j :: rs2)) =
-  process_buf (parse_resolv_line nf ifs) cfg (unlines (rs1 ++ rs2)).
-Proof. exact junk_file_independent. Qed.
-Print Assumptions C15_junk_independent_file_partial.
+(* ... and a reinit never leaves a channel without servers *)
+Theorem C15_ranges_reinit_servers : forall nf e c c',
+  reinit nf e c = Ok c' -> c_servers c <> [] -> c_servers c' <> [].
+Proof. exact Chan_ranges.reinit_keeps_servers. Qed.
+Print Assumptions C15_ranges_reinit_servers.
+
+(* The hosts file (ares_hosts_file.c).  Totality: reading any content succeeds and yields tables
+   in which no entry dangles, so a lookup never follows a stale pointer ... *)
+Theorem C15_hosts_total : forall nf content, exists hf, parse_hosts nf content = Ok hf /\ hf_wf hf.
+Proof. exact parse_hosts_total. Qed.
+Print Assumptions C15_hosts_total.
+
+Theorem C15_hosts_search_total : forall nf content hf name,
+  parse_hosts nf content = Ok hf -> exists r, hosts_search_host hf name = Ok r.
+Proof. exact hosts_search_total. Qed.
+Print Assumptions C15_hosts_search_total.
+
+(* ... and junk independence on the file text: a raw line that hosts(5) does not allow (blank,
+   comment, no address, no usable name) can be inserted anywhere without changing the result *)
+Theorem C15_hosts_junk_independent : forall nf rs1 j rs2 c,
+  Forall no_nl rs1 -> no_nl j -> Forall no_nl rs2 -> junk_hosts_class nf j = Some c ->
+  parse_hosts nf (unlines (rs1 ++ j :: rs2)) = parse_hosts nf (unlines (rs1 ++ rs2)).
+Proof. exact junk_hosts_file_independent. Qed.
+Print Assumptions C15_hosts_junk_independent.
